@@ -402,7 +402,17 @@ def _join_edge(ctx, fn_key, what):
                 others = [b2 for (b2, t2, c2) in prog.sites(inst) if prog.callee_key(c2) == T + "::set_unparked"
                           and not mentions_call(arg_expr(body, t2, 0), "rt::thread::Set::active_mut")]
                 dom = body.dominators()
-                if every_path_passes(body, [b]) or (others and all(b in dom[o] for o in others)):
+                # ... or the only way round the join is the self-unpark (`id == active_id()`): joining a clock with itself is the
+                # identity, so `if id != active { join }` is an unconditional edge
+                def _other_thread(e):
+                    if e[0] == "call" and (e[1].endswith("PartialEq::eq") or e[1].endswith("PartialEq::ne")) and len(e[2]) == 2 and \
+                            any(mentions_call(x, "rt::thread::Set::active_id") is not None or mentions_field(x, "rt::thread::Set", "active") for x in e[2]) and \
+                            any(strip(x)[0] == "param" for x in e[2]):
+                        return e[1].endswith("::ne")
+                    return None
+                reached_, _ = PEval(body, assume_expr(_other_thread)).run(stop_blocks=[b])
+                only_self = not any(body.term(rb)["k"] == "return" and rb != b for rb in reached_)
+                if every_path_passes(body, [b]) or (others and all(b in dom[o] for o in others)) or only_self:
                     ctx.ok("Y1", fn_key, what + " (on every path that wakes another thread)", [site_str(prog, fn_key, b)])
                 else:
                     ctx.bad("Y1", fn_key, "happens-before edge is conditional (%s): on some path of %s the clocks are not joined" % (what, fn_key),
